@@ -47,7 +47,7 @@ CLAIMED = {
   'text': 'Receive allocation invariant on the real AssemblyWindow for hostile datagrams (every header field any, claimed fragment counts up to 65536): alloc = sum over slots <= max_receive_alloc rounded up, '
           'over-limit packets allocate nothing, clear() returns a slot\'s bytes; a partial packet is released when the window passes it; sender and receiver charge the same fragment-rounded size for EVERY packet length; '
           'the sender never exceeds the advertised packet window and reopens after a full acknowledgement. The unbounded ack-group queue is reported as KNOWN-FINDING F12.',
-  'note': COMMON_NOTE + 'Library counters and buffer lengths, not allocator overhead. 4 slots. F13 (data kept for a passed id under hostile leads, release builds) is a recorded finding.',
+  'note': COMMON_NOTE + 'Library counters and buffer lengths, not allocator overhead. 4 slots. The receive-side obligations build the assembly window with a loop-free constructor taking the already rounded limit: the rounding inside the real AssemblyWindow::new / PacketReceiver::new (4096-slot initialisation loops) could not be encoded and is outside the claim (a seeded change there, C06e, is not caught; DESIGN.md 10.7). F13 (data kept for a passed id under hostile leads, release builds) is a recorded finding.',
  },
  'C07': {
   'text': 'Client and server handshake handlers of the real code, all frame fields symbolic: Connect only for a SYN-ACK echoing our nonce / an ACK returning the server\'s freshly drawn nonce from the same address; '
